@@ -70,7 +70,7 @@ class Token(object):
         return True
 
 
-def execute(version, script, token, user_plug, seed, thr_of=None, keybits=1024, chunk='random'):
+def execute(version, script, token, user_plug, seed, thr_of=None, keybits=1024, chunk='random', burst=False):
     from minecraft.networking.packets import Packet
     from minecraft.networking.packets import clientbound, serverbound
     from minecraft.exceptions import IgnorePacket
@@ -81,10 +81,12 @@ def execute(version, script, token, user_plug, seed, thr_of=None, keybits=1024, 
     info = {'secret': None, 'srv_token': None, 'server_id': None, 'hash': None, 'der': der}
     thr_of = thr_of or (lambda t: THR[t % len(THR)])
 
+    pending_burst, burst_seen = [0], [0]
+
     def factory(idx, sess):
         sc = TracingScript(run, prof, [])
         steps = [('expect', 2)]
-        for st in script:
+        for j, st in enumerate(script):
             if st[0] == 'enc':
                 sid = ('srv%04x' % rng.getrandbits(16)) if st[1] else '-'
                 tok = bytes(rng.getrandbits(8) for _ in range(rng.choice([1, 4, 16, 64])))
@@ -111,8 +113,19 @@ def execute(version, script, token, user_plug, seed, thr_of=None, keybits=1024, 
             elif st[0] == 'plug':
                 n_before = [0]
                 steps += [('call', lambda sc, st=st, nb=n_before: (run.ev('srv', s=['plug', st[1]]), nb.__setitem__(0, len(sc.de.frames)))),
-                          ('send', prof.plugin_request(st[1], 'verif:chan', b'\x01\x02')),
-                          ('wait', lambda sc, nb=n_before: len(sc.de.frames) > nb[0])]
+                          ('send', prof.plugin_request(st[1], 'verif:chan', b'\x01\x02'))]
+                if burst and j + 1 < len(script) and script[j + 1][0] == 'plug':
+                    pending_burst[0] += 1           # consecutive requests go out back to back; the answers are awaited together
+                else:
+                    k = pending_burst[0] + 1
+                    pending_burst[0] = 0
+                    if burst and k > 1:
+                        # the first request of the run recorded the frame count; wait for k answers from there
+                        steps += [('wait', lambda sc, k=k: sum(1 for p in sc.parsed if p['t'] == 'plugin_response') >= burst_seen[0] + k),
+                                  ('call', lambda sc, k=k: burst_seen.__setitem__(0, burst_seen[0] + k))]
+                    else:
+                        steps += [('wait', lambda sc: sum(1 for p in sc.parsed if p['t'] == 'plugin_response') >= burst_seen[0] + 1),
+                                  ('call', lambda sc: burst_seen.__setitem__(0, burst_seen[0] + 1))]
             elif st[0] == 'succ':
                 steps += [('call', lambda sc: run.ev('srv', s=['succ'])),
                           ('send', prof.login_success(bytes(range(16)), 'verif')),
@@ -256,7 +269,7 @@ def run(chk):
         version = rng.choice(plug_versions if row['plugOk'] else old_versions)
         rot = i
         run_ = execute(version, row['script'], row['token'], row['userPlug'], chk.seed * 65537 + i,
-                       thr_of=lambda t, rot=rot: THR[(t + rot) % len(THR)])
+                       thr_of=lambda t, rot=rot: THR[(t + rot) % len(THR)], burst=bool(i % 2))
         ev, frames = observe(run_, row['token'], row['userPlug'], None)
         chk.traces += 1
         chk.case(('script', json.dumps(row['script']), row['token'], row['userPlug'], row['plugOk']))
@@ -315,9 +328,11 @@ def run(chk):
                 script.append(['comp', rng.randrange(5)]); did_comp = True
             else:
                 script.append(['plug', rng.choice([0, 1, 127, 128, 2 ** 31 - 1])])
+                while rng.random() < 0.4:       # runs of requests with distinct ids (sent back to back in burst mode)
+                    script.append(['plug', rng.choice([2, 3, 129, 16383, 16384, 2 ** 31 - 2])])
         script.append(['succ'] if rng.random() < 0.6 else ['disc', rng.choice(sorted(TEXTS))])
         token, up = rng.random() < 0.5, rng.random() < 0.3
-        run_ = execute(version, script, token, up, chk.seed * 31 + j, keybits=1024 if j % 7 else 2048)
+        run_ = execute(version, script, token, up, chk.seed * 31 + j, keybits=1024 if j % 7 else 2048, burst=(j % 2 == 0))
         ev, frames = observe(run_, token, up, None)
         chk.traces += 1
         chk.case(('rand', j))
